@@ -12,6 +12,9 @@ pub(crate) mod stack;
 
 mod variables;
 
+#[cfg(mscript_verif)]
+pub mod verif;
+
 // Alternate naming to make writing FFI functions simpler.
 pub use function::ReturnValue as FFIReturnValue;
 pub(crate) use variables::GcVector;
